@@ -352,7 +352,14 @@ def run(ctx, config='rel-all'):
         lenload = ('load', ('fld', ('deref', SELF), 'collections::vec::Vec.len'), 0)
         check('drain', 'panics exactly when len < end', end is not None and ('lt', lenload, end) in labels)
         check('drain', 'len := start (leak amplification)', len(sl) == 1)
-        check('drain', 'tail_len = len - end', r is not None and r[0] == 'agg' and end is not None and field_of(r, 'tail_len') in (('app', 'wsub', lenload, end), app('sub', lenload, end)))
+        tl = field_of(r, 'tail_len') if r is not None and r[0] == 'agg' else None
+        oktl = tl is not None and end is not None and tl in (('app', 'wsub', lenload, end), app('sub', lenload, end))
+        if not oktl and tl is not None and end is not None and tl[0] == 'app' and tl[1] in ('sub', 'wsub') and len(tl) == 4 and tl[3] == end:
+            # the length re-read (in a helper the tail was moved into) before anything stored to it
+            l2 = tl[2]
+            oktl = l2[0] == 'load' and l2[1] == lenload[1] and not any(e.kind == 'store' and e.lv == lenload[1] and m.r.events.index(e) < m.r.events.index(sl[0]) for e in m.r.events if sl) \
+                and bool(sl) and all(m.r.events.index(e) > m.r.events.index(sl[0]) for e in m.r.events if e.kind == 'store' and e.lv == lenload[1])
+        check('drain', 'tail_len = len - end', oktl)
         if ps and start is not None and end is not None:
             b0, idx0 = split_base(m, ps[0].args[0])
             check('drain', 'drained slice starts at BASE + start', b0 == BASE and idx0 == m._strip(subst(start, m.map)), show(m.canon(ps[0].args[0])[0])[:80])
@@ -414,10 +421,19 @@ def run(ctx, config='rel-all'):
                 check('truncate', 'the element dropped is the one just below the old cursor', len(dip) == 1 and slin(app('sub', dip[0].args[0], symv)) == slin(app('mul', SZ, C(-1))))
             g = [v for v in rec['init'].values() if v[0] == 'agg' and v[1].endswith('SetLenOnDrop')]
             okg = len(g) == 1 and m.canon(field_of(g[0], 'local_len'))[0] == LEN and field_of(g[0], 'len') == ('addr', ('fld', ('deref', SELF), 'collections::vec::Vec.len'))
-            check('truncate', 'the length guard starts at self.len and writes back to self.len', okg)
             dec = [e for e in m.own if e.kind == 'call' and (e.callee or '').endswith('::decrement_len')]
             dip = [e for e in m.own if e.kind == 'drop_in_place']
-            check('truncate', 'the length is lowered by one BEFORE each element is dropped', len(dec) == 1 and dec[0].args[1] == C(1) and len(dip) == 1 and m.r.events.index(dec[0]) < m.r.events.index(dip[0]))
+            # without a guard: `self.len -= 1` written straight into the field inside the loop
+            LEN_LV_ = ('fld', ('deref', SELF), 'collections::vec::Vec.len')
+            direct = [e for e in m.own if e.kind == 'store' and e.lv == LEN_LV_]
+            def len_minus_one(v):
+                return v[0] == 'app' and v[1] in ('sub', 'wsub') and len(v) == 4 and v[3] == C(1) and v[2][0] == 'load' and v[2][1] == LEN_LV_
+            gl = m.I.cfg(m.body).loops()
+            okd = not g and not dec and len(direct) == 1 and len_minus_one(direct[0].val) and any(direct[0].block in (gl.get(h) or ()) for (bid, h) in m.r.loops if bid == m.body['id'])
+            check('truncate', 'the length guard starts at self.len and writes back to self.len', okg or okd)
+            check('truncate', 'the length is lowered by one BEFORE each element is dropped',
+                  (len(dec) == 1 and dec[0].args[1] == C(1) and len(dip) == 1 and m.r.events.index(dec[0]) < m.r.events.index(dip[0])) or
+                  (okd and len(dip) == 1 and m.r.events.index(direct[0]) < m.r.events.index(dip[0])))
     # ---- extend_with (resize)
     has_extend_with = vec_method(db, 'extend_with') is not None
     m = need('extend_with') if has_extend_with else need('resize')
@@ -568,6 +584,7 @@ def run(ctx, config='rel-all'):
         I2, r2 = arena.run_fn(ctx, b['id'], config)
         ev = [e for e in r2.events if e.is_own()]
         S = ('param', 1)
+        index_form = (b['meta'].get('output') or '') == 'usize'
         Ls = [v for (bid, h), v in r2.loops.items() if bid == b['id']]
         okl = len(Ls) == 1
         check('partition_dedup_by', 'one scan loop', okl, '', b.get('span'))
@@ -603,15 +620,21 @@ def run(ctx, config='rel-all'):
                     and any(f[0] == 'nottrue' for f in sw[0].state.facts)
                 check('partition_dedup_by', 'a kept element is swapped from s[r] into s[w] (only when r != w)', oks)
                 sp = [e for e in ev if e.kind == 'call' and (e.callee or '').endswith('split_at_mut')]
-                check('partition_dedup_by', 'the slice is split at the write cursor once the read cursor reached len', len(sp) == 1 and sp[0].args == [S, W_] and (any(f == ('le', app('len', S), R_) for f in sp[0].state.facts) or (range_form and any(f[0] == 'is' and f[2] == 'None' and f[1] == nxr[0].ret for f in sp[0].state.facts))))
+                oksp = len(sp) == 1 and sp[0].args == [S, W_] and (any(f == ('le', app('len', S), R_) for f in sp[0].state.facts) or (range_form and any(f[0] == 'is' and f[2] == 'None' and f[1] == nxr[0].ret for f in sp[0].state.facts)))
+                if not sp and index_form:
+                    # the helper hands back the split position instead of the two halves: the write cursor, once the read cursor reached len
+                    oksp = any(t == W_ and (any(f == ('le', app('len', S), R_) for f in fs) or (range_form and any(f[0] == 'is' and f[2] == 'None' and f[1] == nxr[0].ret for f in fs)))
+                               for t, fs in arena.alternatives(I2, r2.ret, set(r2.ret_state.facts) if r2.ret_state else set()))
+                check('partition_dedup_by', 'the slice is split at the write cursor once the read cursor reached len', oksp)
         alts = arena.alternatives(I2, r2.ret, set())
-        check('partition_dedup_by', 'slices of length <= 1 are returned unchanged', any(t[0] == 'agg' and field_of(t, '0') == S and any(f == ('le', app('len', S), C(1)) for f in fs) for t, fs in alts))
+        check('partition_dedup_by', 'slices of length <= 1 are returned unchanged', any(((t[0] == 'agg' and field_of(t, '0') == S) or (index_form and t == app('len', S))) and any(f == ('le', app('len', S), C(1)) for f in fs) for t, fs in alts))
     m = need('dedup_by')
     if m:
         pc = m.events('call', 'partition_dedup_by')
         tr = m.events('call', '::truncate')
         okv = len(pc) == 1 and len(tr) == 1 and m.canon(field_of(pc[0].args[0], 'ptr'))[0] == BASE and m.canon(field_of(pc[0].args[0], 'len'))[0] == LEN and pc[0].args[1] == ('param', 2) \
-            and tr[0].args[0] == SELF and tr[0].args[1][0] == 'app' and tr[0].args[1][1] == 'len' and pc[0].ret is not None and first_components(tr[0].args[1][2], pc[0].ret)
+            and tr[0].args[0] == SELF and pc[0].ret is not None and ((tr[0].args[1][0] == 'app' and tr[0].args[1][1] == 'len' and first_components(tr[0].args[1][2], pc[0].ret)) or
+                                                                  (tr[0].args[1] == pc[0].ret and (db.by_path.get(pc[0].callee) or {}).get('meta', {}).get('output') == 'usize'))
         check('dedup_by', 'truncate(len of the deduplicated prefix of self[..])', okv, '', m.body.get('span'))
     # ---- IntoIter views
     for nm in ('as_slice', 'as_mut_slice'):
@@ -741,6 +764,8 @@ def check_realloc_adopted(ctx, db, config, rule='R5'):
                     pays.append(I.project_variant(None, c.ret, 'Ok', '0'))
                     pays.append(c.ret)
             okv = bool(pst) and any(any(pv == s.val or pv in subterms(s.val) for pv in pays) for s in pst)
+            if not pst and r.ret is not None and any(pv in subterms(r.ret) for pv in pays):
+                okv = True      # a helper that hands the fresh block back to its caller (which is judged in turn, with this helper inlined)
         n5 += 1
         if okv:
             ctx.ok(rule, '%s stores the pointer returned by the (re)allocation into self.ptr' % fn, 'term containment')
